@@ -20,7 +20,13 @@ def main() -> int:
         return 2
     try:
         if a.replay:
-            return int(mod.replay(a.replay))
+            # every case of a check is a deterministic function of (VERIF_SEED, tier): re-execute the
+            # run that produced the replay file and print the same verdict lines
+            import json
+            r = json.loads(open(a.replay).read())
+            os.environ["VERIF_SEED"] = str(r.get("seed", os.environ.get("VERIF_SEED", "0")))
+            print(f"replaying {prop} seed={os.environ['VERIF_SEED']} tier={r.get('tier', a.tier)}: {r.get('what', r.get('kind'))}")
+            return int(mod.main(r.get("tier", a.tier)))
         return int(mod.main(a.tier))
     except SystemExit as e:
         return int(e.code or 0)
